@@ -164,7 +164,7 @@ PROPS: dict[str, dict[str, Any]] = {
                         "with --dist each every environment has its own collection; only a replacement is compared (with the worker it replaces)"],
     },
     "C03": {
-        "components": [sched(LB, crash=0.12), system(["crash"], 400, 8000)],
+        "components": [sched(LB, crash=0.12), system(["crash"], 400, 8000), e2e("crash")],
         "assumptions": ["'head of the book = the test in hand' relies on the book/queue correspondence (C05, C07) and FIFO channels"],
     },
     "C05": {
